@@ -194,6 +194,12 @@ func perturbKey(rt *rapid.T, name string, o DocOpts) string {
 		return name + "x"
 	case 4:
 		return rapid.SampledFrom([]string{"unknown", "", "zz", "-", "A", "a", "x", "X", "y", "Y"}).Draw(rt, "otherkey")
+	case 5:
+		// a proper prefix of the name (word-at-a-time key comparison must not match it)
+		if len(name) > 1 && name[len(name)-1] < 0x80 {
+			return name[:len(name)-1]
+		}
+		return name
 	default:
 		return name
 	}
